@@ -197,7 +197,8 @@ def run_property(prop_id: str, tier: str, seed: int, procs: int | None = None) -
     ev = dict(
         property_id=prop_id, tier=tier, seed=seed, level="model_checking",
         coverage=dict(
-            states=max(total.paths, 0), transitions=max(total.decisions, 0),
+            states=max(total.paths, 0), transitions=total.decisions + total.paths,  # decisions taken + one terminal step per completed path
+
             traces_validated_against_impl=n_validated,
             samples=total.samples[:6] or [dict(note="no completed path")],
             paths=total.paths, paths_aborted_infeasible=total.aborted, paths_truncated_outside_claim=total.truncated,
